@@ -1151,6 +1151,29 @@ fn gen_typedkeys(r: &mut Rng) -> TypedKeys {
     TypedKeys { k: r.next() as u8, k_b, k_u, k_c }
 }
 
+
+/// T22 — text content first, element lists (possibly empty) after it
+#[derive(Serialize, Deserialize, Debug, PartialEq, Clone)]
+#[serde(rename = "m_textfirst")]
+pub struct TextFirst {
+    #[serde(rename = "@a_k")]
+    pub k: u8,
+    #[serde(rename = "$text", default)]
+    pub t: String,
+    #[serde(default)]
+    pub t_item: Vec<String>,
+    #[serde(default)]
+    pub t_num: Vec<i32>,
+}
+fn gen_textfirst(r: &mut Rng) -> TextFirst {
+    TextFirst {
+        k: r.next() as u8,
+        t: gen_string(r, Pos::Text),
+        t_item: (0..gen_len(r).min(3)).map(|_| gen_string(r, Pos::Text)).collect(),
+        t_num: (0..gen_len(r).min(3)).map(|_| r.next() as i32).collect(),
+    }
+}
+
 pub fn family() -> Vec<TypeOps> {
     vec![
         ops!(Attrs, "Attrs", gen = gen_attrs, rows = &["attribute:string", "attribute:number", "attribute:bool", "attribute:char", "attribute:unit-enum", "attribute:option-skipped", "attribute:xs-list"]),
@@ -1178,6 +1201,7 @@ pub fn family() -> Vec<TypeOps> {
         ops!(TextWrap, "TextWrap", gen = |r| TextWrap { k: r.next() as u8, t: Wrap(gen_string(r, Pos::Text)) }, rows = &["$text:newtype"]),
         ops!(TextOpt, "TextOpt", gen = gen_textopt, rows = &["$text:option"]),
         ops!(TypedKeys, "TypedKeys", gen = gen_typedkeys, rows = &["map:bool-keys", "map:unit-enum-keys", "map:char-keys"]),
+        ops!(TextFirst, "TextFirst", gen = gen_textfirst, rows = &["$text-followed-by-element-lists"]),
     ]
 }
 
@@ -1875,6 +1899,8 @@ pub fn ser_only() -> Vec<SerOnly> {
         so!("ElemAny<Vec<Weird>>", |r: &mut Rng| ElemAny { t_v: (0..r.below(4)).map(|_| *r.pick(&WEIRD_ALL)).collect::<Vec<Weird>>(), k: r.next() as u8 }),
         so!("ElemAny<(String,VarKinds)>", |r: &mut Rng| ElemAny { t_v: (gen_string(r, Pos::Attr), gen_varkinds(r)), k: r.next() as u8 }),
         so!("ElemAny<Vec<char>>", |r: &mut Rng| ElemAny { t_v: (0..r.below(4)).map(|_| gen_char(r, Pos::Attr)).collect::<Vec<char>>(), k: r.next() as u8 }),
+        so!("MixedUnitText", |r: &mut Rng| ValAny { k: r.next() as u8, v: (gen_varkinds(r), if r.bool() { TextUnitVar::T } else { TextUnitVar::A }, gen_varkinds(r), TextUnitVar::T, gen_varkinds(r)) }),
+        so!("MixedUnits", |r: &mut Rng| ValAny { k: r.next() as u8, v: (gen_string(r, Pos::Attr), (), UnitStruct, gen_varkinds(r), (), gen_string(r, Pos::Attr)) }),
         so!("VarKinds", |r: &mut Rng| gen_varkinds(r)),
         so!("Vec<VarKinds>", |r: &mut Rng| (0..r.below(4)).map(|_| gen_varkinds(r)).collect::<Vec<VarKinds>>()),
     ]
